@@ -42,7 +42,8 @@ ASSUMPTIONS = [
     "realize_coherent is proved for one application of the repaired RealizeMemrefCasts on a flat block (uses of the "
     "cast directly in the block, no loops inside the block, no other name of the source buffer used in the block) in "
     "any state and for any order of users; nested uses and whole-pass behaviour are covered by correspondence and search",
-    "transform_constant is modelled at element granularity; dense => mixed_radix_sorted is checked by L1, not proved",
+    "transform_constant is modelled at element granularity; dense => mixed_radix_sorted is proved for positive steps "
+    "(C12_dense_mixed_radix_sorted) and still checked on every generated layout",
     "numpy argsort is stable on the short arrays that occur (insertion sort below 17 elements)",
     "subviews, globals, dynamic shapes and dart operations are outside the model (IR generator does not emit them)",
 ]
@@ -734,7 +735,7 @@ def correspondence(ctx):
     pc, pm = [], []
     for p in CORPUS + [gen_program(rng) for _ in range(n)]:
         try:
-            _, info = check_program(p)
+            pfails, info = check_program(p)
         except ConvError as e:
             dis.append({"name": "L1:converter", "case": p, "detail": str(e)})
             continue
@@ -743,24 +744,36 @@ def correspondence(ctx):
             continue
         after_c = canon_py(info["nargs"], info["after"])
         pc.append(f"({info['nargs']}%nat, {coq_items(info['before'])}, {coq_items(after_c)})")
-        pm.append({"program": p, "text": info["text"]})
+        pm.append({"program": p, "text": info["text"], "fails": pfails})
         nt = any(it[0] == "copy" for it in _flat(info["after"])) and info["before"] != info["after"]
         ctx.count({"program": info["text"][:400]}, nt, "pg" + info["text"], f"L1:program:{p['style']}")
     texts, spans = [], []
+    inside = 0
     SH = 150
     for i in range(0, len(pc), SH):
         texts.append("From Snax Require Import Base.Prelude Model.C12Casts.\n"
                      f"Definition cases := {coqlist(pc[i:i + SH])}.\n"
                      "Eval vm_compute in failing (fun c : nat * list item * list item => match c with (n, b, a) => "
-                     "prog_eqb (canon n (realize_all b)) a end) cases.\n")
+                     "prog_eqb (canon n (realize_all b)) a end) cases.\n"
+                     "Eval vm_compute in failing (fun c : nat * list item * list item => match c with (n, b, a) => "
+                     "negb (all_steps_okb b) end) cases.\n")
         spans.append(i)
     for (ok, out), base in zip(vlib.coq_eval_many("c12pg_", texts, timeout=600), spans):
         lists = vlib.parse_all_eval_lists(out)
-        if not ok or len(lists) != 1:
+        if not ok or len(lists) != 2:
             return dis + [{"name": "cases-file", "detail": out[-2000:]}]
         for idx in lists[0]:
             dis.append({"name": "L1:realize", "case": pm[base + idx]["program"], "text": pm[base + idx]["text"],
                         "coq_case": pc[base + idx][:900]})
+        # programs inside the decidable domain of C12_all_steps_equiv (all_steps_okb = true): the theorem says the
+        # pass output is equivalent; a symbolic-execution failure on such a program contradicts it
+        for idx in lists[1]:
+            inside += 1
+            if pm[base + idx]["fails"]:
+                dis.append({"name": "L1:all_steps_equiv-contradicted", "case": pm[base + idx]["program"],
+                            "text": pm[base + idx]["text"], "detail": pm[base + idx]["fails"][:1]})
+    ctx.extra["programs_in_all_steps_okb_domain"] = inside
+    ctx.extra["programs_generated_for_L1"] = len(pc)
     return dis
 
 
